@@ -167,11 +167,9 @@ def rule_pipeline(ctx):
         unguarded = {}
         for e in appends:
             a = e.a[2][0]
-            if not (a[0] == 'call' and T.call_name(a) == 'copy'):
-                ctx.violated('R3', fi, e.node, 'result axes must be copies (the result must not share Axis objects with an operand)', node=e.node)
-                ok = False
-                continue
-            src = T.call_receiver(a)
+            # (whether the axis is copied or shared with the operand is not C04's business: the labels are the same either way)
+            src = T.call_receiver(a) if (a[0] == 'call' and T.call_name(a) in ('copy', 'deepcopy') and not a[2]) else \
+                a[2][0] if (a[0] == 'call' and T.dotted(a[1]) in ('copy.copy', 'copy.deepcopy') and a[2]) else a
             ax = None
             for x in T.subterms(src):
                 if x[0] == 'elem' and x[1] == ('attr', A, 'axes'):
@@ -211,6 +209,24 @@ def rule_pipeline(ctx):
                          'axis is non-empty: arithmetic on arrays with an empty axis raises IndexError instead of returning the (empty) result' % unguarded[ln][:80], node=p.node)
             ok = False
             break
+        if not appends:
+            # the other way to the same axes: copies of the common axes chosen by _get_axes(o1', o2') - whose choice table (placeholder gives way to any real
+            # axis; decided as C10-R3, re-run below) makes it pick o2's axis exactly for the placeholders of o1
+            na = newaxes
+            if na[0] == 'call' and T.dotted(na[1]) == 'Axes' and len(na[2]) == 1:
+                na = na[2][0]
+            via = na[0] == 'comp' and len(na[3]) == 1 and na[3][0][1] == ('call', ('name', '_get_axes'), (A, B), ()) \
+                and na[2] in (('call', ('attr', ('elem', na[3][0][1], na[3][0][0]), 'copy'), (), ()), ('elem', na[3][0][1], na[3][0][0]))
+            if via:
+                from . import c10 as _c10
+                from ..report import Renamed as _Ren
+                _c10.rule_common_axis_choice(_Ren(ctx, {'*': 'R3'}), ctx.fn('dimarray.core.align._get_axes'))
+                ctx.holds('R3', 'result axes: copies of _get_axes(o1, o2) (common-axis choice table)')
+                ctx.holds('R3', 'result built without metadata')
+            else:
+                ctx.undecide('R3', 'operation(): result axes are built in a form the rule does not know (neither the own-axis / placeholder loop nor copies of _get_axes): %s'
+                             % T.show(newaxes)[:120])
+            continue
         if len(appends) < 2:
             ctx.violated('R3', fi, 'newaxes loop', 'expected the two alternatives (own axis / replaced placeholder) in the result-axes loop', node=p.node)
             ok = False
